@@ -434,9 +434,9 @@ def run_harness(exe, args, timeout=3000):
     return rc, out
 
 
-def tie_shard(exe, drv, seed, tiername, tag):
+def tie_shard(exe, drv, seed, tiername, tag, mode="tie"):
     impl = WORK / f"impl_{tag}.txt"; model = WORK / f"model_{tag}.txt"
-    rc, out = run_harness(exe, ["tie", str(seed), tiername, str(impl)])
+    rc, out = run_harness(exe, [mode, str(seed), tiername, str(impl)])
     if rc != 0:
         return dict(tag=tag, error=f"harness tie rc={rc}: {out[-800:]}")
     if drv:
@@ -471,7 +471,13 @@ def compare(implp, modelp, agg, mismatches, oracle_viol, lat_viol, xlines, sampl
         while d < md:
             d <<= 1
         if int(p["L"]) != exp or int(p["L2"]) != exp or int(p["depth"]) != d or p["dual"] != p["reqDual"]:
-            lat_viol.append(dict(case=cline, what=f"configuration resolved to depth={p['depth']} L={p['L']}/{p['L2']} dual={p['dual']}, expected depth={d} L={exp} dual={p['reqDual']}"))
+            lat_viol.append(dict(case=cline, what=f"configuration resolved to depth={p['depth']} L={p['L']}/{p['L2']} dual={p['dual']}, expected depth={d} L={exp} dual={p['reqDual']}"
+                                 + (" -- push and pop clock differ in pin or trigger event, the FIFO must be the dual-clock (synchroniser) variant" if p["reqDual"] == "1" and p["dual"] != "1" else "")))
+        # structure: clocks that differ in clock pin OR trigger event need clock-crossing synchronisers (2 Node_CDC: put and get pointer)
+        if "cdc" in p:
+            agg["relation"][f"{p.get('rel')}/gen={p.get('gen')}/mid={p.get('mid')}"] += 1
+            if (p["reqDual"] == "1") != (int(p["cdc"]) >= 2):
+                lat_viol.append(dict(case=cline, what=f"{p['cdc']} clock-domain-crossing nodes in a FIFO whose push/pop clocks relate as '{p.get('rel')}' (expected {'>= 2: gray-code synchronisers for both pointers' if p['reqDual'] == '1' else '0'})"))
         if mcase is not None:
             mevs = mcase[2]
             if len(mevs) != len(evs):
@@ -613,6 +619,14 @@ def main():
                 continue
         compare(sh["impl"], sh.get("model"), agg, mismatches, oracle_viol, lat_viol, xlines, samples)
 
+    # clock-relation family: same pin / other trigger edge, derived with multiplier, root clocks x scope of generate() x mid-cycle requests
+    for i in range(1 if tiername == "quick" else 2):
+        sh = tie_shard(exe, drv, seed * 10 + i, tiername, f"rel_{tiername}{i}", mode="rel")
+        if "error" in sh:
+            errors.append(sh["error"])
+        if "impl" in sh:
+            compare(sh["impl"], sh.get("model"), agg, mismatches, oracle_viol, lat_viol, xlines, samples)
+
     # gray code
     gimpl = WORK / "gray_impl.txt"; gmodel = WORK / "gray_model.txt"
     rc, out = run_harness(exe, ["gray", str(gimpl)])
@@ -692,7 +706,7 @@ def main():
                     other_viol = o2["viol"]
                     search_info["extra_cases"] = search_info.get("extra_cases", 0) + o2["cases"]
             else:
-                sh = tie_shard(exe, None, seed * 7 + 1000 + rounds, "search", f"search{rounds}")
+                sh = tie_shard(exe, None, seed * 7 + 1000 + rounds, "search", f"search{rounds}", mode=("rel" if rounds % 2 == 0 and any("rel=" in v["case"] for v in lat_viol + mismatches if isinstance(v.get("case"), str)) else "tie"))
                 if "impl" in sh:
                     a2 = new_agg(); sm2 = []
                     compare(sh["impl"], None, a2, [], oracle_viol, [], [], sm2)
@@ -769,6 +783,7 @@ def main():
     cov["config_histogram"] = dict(sorted(agg["cfg"].items()))
     cov["clock_relation_histogram"] = dict(agg["ratio"])
     cov["postprocess_histogram"] = dict(agg["pp"])
+    cov["clock_relation_family_histogram"] = dict(agg["relation"])
     cov["latency_option_histogram"] = dict(agg["lat_opt"])
     cov["case_classes"] = dict(agg["classes"])
     cov["model_branches"] = dict(step_single=sum(v for kk, v in agg["cfg"].items() if kk.endswith("dual=0")),
@@ -802,7 +817,7 @@ def main():
 
 
 def new_agg():
-    return dict(cases=0, events=0, cfg=collections.Counter(), hash=set(), ratio=collections.Counter(), pp=collections.Counter(),
+    return dict(cases=0, events=0, cfg=collections.Counter(), hash=set(), ratio=collections.Counter(), pp=collections.Counter(), relation=collections.Counter(),
                 lat_opt=collections.Counter(), classes=collections.Counter())
 
 
